@@ -964,6 +964,84 @@ def bnd6(units, R, functions=None, nonterm=None):
                 if not pruned:
                     break
                 left = [c for c in _sccs(g2, set(g2)) if len(c) > 1 or c[0] in g2.get(c[0], ())]
+            # a step-free cycle that no value of a flag can go round: followed with the flag's value (true / false / unknown) every
+            # test of the flag takes the edge that value allows, and an assignment of a constant sets it.  `while (t && ..) { ..
+            # default: t = false; break; .. if (t) { i++; } }` has no step-free cycle in that product.
+            if left:
+                kept = []
+                for scc in left:
+                    sset = set(scc)
+                    flags_ = set()
+                    for bid in scc:
+                        bn = cfg.nodes[bid]
+                        if bn.kind == 'branch' and bn.expr is not None:
+                            e_ = strip_casts(bn.expr)
+                            while e_.get('k') == 'un' and e_['op'] == '!':
+                                e_ = strip_casts(e_['e'])
+                            if e_.get('k') == 'ref' and e_.get('dk') == 'local':
+                                flags_.add(e_['d'])
+                    real = True
+                    for fd in flags_:
+                        def step(nid, val):
+                            nd_ = cfg.nodes[nid]
+                            v2 = val
+                            for ev in node_effects(nd_):
+                                if ev.kind in ('store', 'incdec') and is_ref(ev.lhs) and strip_casts(ev.lhs)['d'] == fd:
+                                    cv = const_val(ev.node['r']) if (ev.kind == 'store' and ev.node['op'] == '=') else None
+                                    v2 = None if cv is None else bool(cv)
+                            out_ = []
+                            for y in g2.get(nid, ()):
+                                if y not in sset:
+                                    continue
+                                if nd_.kind == 'branch' and nd_.expr is not None:
+                                    e_ = strip_casts(nd_.expr)
+                                    neg = False
+                                    while e_.get('k') == 'un' and e_['op'] == '!':
+                                        e_ = strip_casts(e_['e'])
+                                        neg = not neg
+                                    if e_.get('k') == 'ref' and e_.get('d') == fd and v2 is not None:
+                                        labs = [l for (yy, l) in cfg.succ[nid] if yy == y and l is not None and l[0] in ('T', 'F')]
+                                        if labs and all((l[0] == 'T') != (v2 != neg) for l in labs):
+                                            continue
+                                        out_.append((y, v2))
+                                        continue
+                                    if e_.get('k') == 'ref' and e_.get('d') == fd and v2 is None:
+                                        labs = [l for (yy, l) in cfg.succ[nid] if yy == y and l is not None and l[0] in ('T', 'F')]
+                                        if labs:
+                                            out_.append((y, (labs[0][0] == 'T') != neg))
+                                            continue
+                                out_.append((y, v2))
+                            return out_
+                        # is there a cycle in the product graph?
+                        nodes_ = [(nid, v) for nid in scc for v in (True, False, None)]
+                        adj = {st_: step(*st_) for st_ in nodes_}
+                        color = {}
+                        cyc = False
+                        for st0 in nodes_:
+                            if st0 in color:
+                                continue
+                            stack = [(st0, iter(adj.get(st0, ())))]
+                            color[st0] = 1
+                            while stack and not cyc:
+                                cur, it = stack[-1]
+                                nxt = next(it, None)
+                                if nxt is None:
+                                    color[cur] = 2
+                                    stack.pop()
+                                    continue
+                                if color.get(nxt) == 1:
+                                    cyc = True
+                                elif nxt not in color:
+                                    color[nxt] = 1
+                                    stack.append((nxt, iter(adj.get(nxt, ()))))
+                            if cyc:
+                                break
+                        if not cyc:
+                            real = False
+                            break
+                    if real:
+                        kept.append(scc)
+                left = kept
             # what is left after the forward steps: an inner loop that walks a pointer or counter backwards down to a bound that
             # stands still in that loop (while ((p > start) && (p[-1] == c)) p--;) ends as well
             for _pass in range(4):
